@@ -809,6 +809,27 @@ func (m *Monitors) onERS(inv *simapi.Invocation, out kit.Outcome) {
 				have += n
 			}
 			ctx.Count("C14.sim-canary-counts-judged")
+			// ... and it desires a pod on every canary node it read that exists and is eligible, whatever state the pod of
+			// that node is in (a pod stuck terminating past its grace period does not make its node less desired: the
+			// ExtendedDaemonSet's desired is the sum of the two replica sets' and must count every eligible node)
+			servable, overdue := 0, 0
+			for name := range v.Canary {
+				if _, ok := v.Nodes[name]; ok && eligible(name) {
+					servable++
+				}
+			}
+			for _, p := range v.Pods {
+				if isDaemonPodOf(p, v.EDS) && v.Canary[kit.NodeOfPod(p)] && p.DeletionTimestamp != nil && p.DeletionGracePeriodSeconds != nil &&
+					p.DeletionTimestamp.Add(time.Duration(*p.DeletionGracePeriodSeconds)*time.Second).Before(time.Unix(0, inv.VTimeNanos)) {
+					overdue++
+				}
+			}
+			if overdue > 0 {
+				ctx.Count("C14.sim-canary-desired-judged-with-overdue-terminating-pod")
+			}
+			if int(st.Desired) < servable {
+				m.viol("C14", "C14.rs-desired", map[string]string{"role": role}, inv, map[string]any{"desired": st.Desired, "eligibleCanaryNodesAsRead": servable, "overdueTerminatingCanaryPods": overdue, "ignoredUnresponsiveNodes": st.IgnoredUnresponsiveNodes, "canaryNodes": fmt.Sprint(v.EDS.Status.Canary.Nodes)})
+			}
 			if int(st.Desired) > distinct || int(st.Current) > have {
 				m.viol("C14", "C14.rs-counts", map[string]string{"role": role}, inv, map[string]any{"status": fmt.Sprintf("desired=%d current=%d ready=%d available=%d", st.Desired, st.Current, st.Ready, st.Available), "distinctCanaryNodesAsRead": distinct, "podsAsReadPlusCreated": have, "canaryNodes": fmt.Sprint(v.EDS.Status.Canary.Nodes)})
 			}
